@@ -392,54 +392,121 @@ class IdealVec:
         return res, self.state()
 
 
+FAIL_FORMS = ("false ENOMEM", "null ENOMEM", "int 0 ENOMEM", "ENOMEM")
+
+
 class Judge:
     """feeds (op, implementation line) pairs in order; `feed` returns a description when the
-    implementation's API-level output contradicts the ideal sequence, else None"""
+    implementation's API-level output contradicts the ideal sequence, else None.
 
-    def __init__(self, mode):
-        self.mode, self.ideal, self.dead = mode, None, False
+    Allocation failure (C15): after `fault k` / `faultfrom k` the next windowed call (result line
+    starting with `allocs=<n> `) may either complete correctly or report ENOMEM, and then the
+    contents must be exactly what they were; ENOMEM without an injected failure is a violation.
+    ledger=True (C11): `live=<n>` must equal the block count of the ideal contents after every
+    operation, `end` must report `live=0 bad=0`, a failed constructor `live=0`."""
+
+    def __init__(self, mode, ledger=False):
+        self.mode, self.ideal, self.dead, self.ledger = mode, None, False, ledger
+        self.armed, self.ts = False, False
+
+    def _ledger(self, priv):
+        import re
+        m = re.search(r"\blive=(-?\d+)", priv)
+        if not m:
+            return "no live= field in the private part"
+        live = int(m.group(1))
+        if self.mode == "seq":
+            want = 1 + int(self.ts) + 2 * len(self.ideal.s) + (0 if self.ideal.kind == "list" else 1)
+        else:
+            mm = re.search(r"\bmax=(\d+)", priv)
+            want = 1 + int(self.ts) + (1 if mm and int(mm.group(1)) > 0 else 0)
+        if live != want:
+            return "the library owns %d blocks, the contents account for %d" % (live, want)
+        return None
 
     def feed(self, op, line):
+        import re
         w = op.split()
-        api = line.split(" | ")[0]
+        if w[0] in ("fault", "faultfrom"):
+            self.armed = int(w[1]) > 0
+            return None if line == "ok" else "harness rejected the operation"
+        parts = line.split(" | ")
+        api, priv = parts[0], (parts[1] if len(parts) > 1 else "")
+        m = re.match(r"allocs=(\d+) ", api)
+        armed = self.armed
+        if m:
+            api = api[m.end():]
+            self.armed = False
+        if w[0] == "end":
+            self.ideal = None
+            if api != "end live=0 bad=0":
+                return "after the container was released: `%s` (blocks still allocated / copies handed out earlier changed)" % api[:80]
+            return None
         if w[0] == "new":
             self.dead = False
+            if "KEPT-BAD" in api:
+                return "a copy handed out earlier changed when the container was released: `%s`" % api[:80]
             if self.mode == "seq":
                 self.ideal = IdealSeq(w[1])
+                self.ts = len(w) > 2 and bool(int(w[2]) & 1)
                 want = "ok" + self.ideal.state()
             elif int(w[2]) == 0:
-                self.ideal, want = None, "null EINVAL"
+                self.ideal, want = None, "null EINVAL live=0"
             else:
                 self.ideal = IdealVec(int(w[2]))
+                self.ts = bool(int(w[3]) & 1)
                 want = "ok" + self.ideal.state()
+            if api.startswith("null ENOMEM"):
+                self.ideal = None
+                if not armed:
+                    return "constructor reports ENOMEM although no allocation failure was injected"
+                if api != "null ENOMEM live=0":
+                    return "a failed constructor left blocks allocated: `%s`" % api[:80]
+                return None
             if api != want:
                 return "constructor: expected `%s`, got `%s`" % (want, api[:200])
+            if self.ledger and self.ideal is not None:
+                return self._ledger(priv)
             return None
         if self.ideal is None or self.dead:
             return None
         if line.startswith("bad-op"):
             return "harness rejected the operation"
         ideal = self.ideal
+        k = api.find(" sz=")
+        got_res, got_state = (api[:k], api[k:]) if k >= 0 else (api, "")
+        if "ENOMEM" in got_res:
+            # a reported allocation failure: only when one was injected, and nothing may have changed
+            if not armed:
+                return "`%s` reports ENOMEM although no allocation failure was injected: `%s`" % (op[:80], got_res[:80])
+            if not got_res.startswith(FAIL_FORMS):
+                return "`%s` under allocation failure: malformed failure report `%s`" % (op[:80], got_res[:80])
+            if got_state != ideal.state():
+                return "`%s` reported ENOMEM but changed the container: it shows `%s`, before the call it was `%s`" % (
+                    op[:80], got_state[:200].strip(), ideal.state()[:200].strip())
+            if self.ledger:
+                return self._ledger(priv)
+            return None
         try:
             before = list(ideal.s)
             res, state = ideal.apply(w)
         except Unsafe:
             self.dead = True     # outside the API contract until the next `new`: nothing to judge
             return None
-        k = api.find(" sz=")
-        got_res, got_state = (api[:k], api[k:]) if k >= 0 else (api, "")
         if res is not None and got_res not in res:
             return "`%s` on %s: expected %s, got `%s`" % (op[:80], _short(before), " or ".join("`%s`" % r[:120] for r in res), got_res[:160])
         if got_state != state:
             return "after `%s` on %s the container shows `%s`, the ideal sequence is `%s`" % (
                 op[:80], _short(before), got_state[:200].strip(), state[:200].strip())
+        if self.ledger:
+            return self._ledger(priv)
         return None
 
 
-def judge_stream(ops, impl_lines, mode):
+def judge_stream(ops, impl_lines, mode, ledger=False):
     """mode: 'seq' or 'vector'. Returns (index, description) of the first op on which the
     implementation's API-level transcript contradicts the ideal sequence, or None."""
-    j = Judge(mode)
+    j = Judge(mode, ledger)
     for i, (op, line) in enumerate(zip(ops, impl_lines)):
         d = j.feed(op, line)
         if d:
@@ -457,6 +524,11 @@ def safe(ops, mode):
     for op in ops:
         w = op.split()
         try:
+            if w[0] in ("fault", "faultfrom"):
+                continue
+            if w[0] == "end":
+                ideal = None
+                continue
             if w[0] == "new":
                 if mode == "seq":
                     ideal = IdealSeq(w[1])
